@@ -627,6 +627,32 @@ func (c *FnCtx) builtin(st *State, name string, call *ast.CallExpr) []Term {
 			}
 		}
 		panic(unsup("len of %v", v.T))
+	case "copy":
+		// copy(dst, src) returns min(len(dst), len(src)). The elements written into dst are modelled only when dst is
+		// a plain slice variable or field; a slice of an array (u[:]) is a temporary view whose contents are not tracked.
+		dst := c.evalExpr(st, call.Args[0])
+		src := c.evalExpr(st, call.Args[1])
+		if dst.Sort.Kind != KSlice {
+			panic(unsup("copy into %v", dst.T))
+		}
+		srcLen := ""
+		switch {
+		case src.Sort.Kind == KSlice:
+			srcLen = sliceLen(src)
+		default:
+			d.declFun("strlen", "V", "Int")
+			srcLen = sApp("strlen", src.S)
+			st.assume("(>= " + srcLen + " 0)")
+		}
+		n := sIte("(<= "+sliceLen(dst)+" "+srcLen+")", sliceLen(dst), srcLen)
+		c.e.trusted["copy(): the number of elements copied is modelled, the copied contents are not, in "+shortFn(c.fi.Key)] = true
+		if _, isSliceExpr := ast.Unparen(call.Args[0]).(*ast.SliceExpr); !isSliceExpr {
+			// contents of the destination become unknown (same length)
+			fresh := c.fresh(st, "copied", dst.T)
+			st.assume(sEq(sliceLen(fresh), sliceLen(dst)))
+			c.assignTo(st, call.Args[0], fresh, call.Pos())
+		}
+		return []Term{{S: n, Sort: sInt, T: types.Typ[types.Int]}}
 	case "cap":
 		v := c.evalExpr(st, call.Args[0])
 		t := c.fresh(st, "cap", types.Typ[types.Int])
@@ -730,8 +756,6 @@ func (c *FnCtx) builtin(st *State, name string, call *ast.CallExpr) []Term {
 			a = Term{S: sIte("("+op+" "+a.S+" "+b.S+")", a.S, b.S), Sort: sInt, T: c.typeOf(call)}
 		}
 		return []Term{a}
-	case "copy":
-		panic(unsup("copy()"))
 	case "recover":
 		t := c.fresh(st, "recovered", c.typeOf(call))
 		return []Term{t}
